@@ -40,7 +40,7 @@ def check(ctx, tier):
     fs = [ctx.program.funcs[q] for q in reach if q.startswith("raggedarray.RaggedArray.") or q.startswith("raggedarray.reduction")]
     W.report(ctx, tk, "C05.b", fs)
     W.report_wrappers(ctx, tk, "C05.b")
-    tk.purity("C05.p", [ctx.func(q) for q in ['raggedarray.RaggedArray.sum', 'raggedarray.RaggedArray.prod', 'raggedarray.RaggedArray.mean', 'raggedarray.RaggedArray.all', 'raggedarray.RaggedArray.any', 'raggedarray.RaggedArray.max', 'raggedarray.RaggedArray.min', 'raggedarray.RaggedArray.argmax', 'raggedarray.RaggedArray.argmin', 'raggedarray.RaggedArray._reduce']], "the operation does not write into its operands' buffers", content_only=True)
+    tk.purity("C05.p", [ctx.func(q) for q in ['raggedarray.RaggedArray.sum', 'raggedarray.RaggedArray.prod', 'raggedarray.RaggedArray.mean', 'raggedarray.RaggedArray.all', 'raggedarray.RaggedArray.any', 'raggedarray.RaggedArray.max', 'raggedarray.RaggedArray.min', 'raggedarray.RaggedArray.argmax', 'raggedarray.RaggedArray.argmin', 'raggedarray.RaggedArray._reduce']] + [f_ for q_, f_ in sorted(ctx.program.funcs.items()) if q_.startswith('raggedarray.reduction.')], "the operation does not write into its operands' buffers", content_only=True)
     from .. import hazards as _hz, scopes as _sc
     _hz.generic(ctx, tk, "C05.z", _sc.scope(tk, "C05", depth=1))
     _hz.h27_positional_arguments_dropped(ctx, tk, "C05.z/H27", [f_ for f_ in (ctx.program.funcs.get(q_) for q_ in ['arrayfunctions.get_ra_func']) if f_ is not None])
@@ -236,6 +236,13 @@ def named_reductions(ctx, tk):
                     axis_ok = ax is not None and ax.k == "const" and ax.a[0] in (-1, 1)
                     ctx.decide("C05.c", m, what, (c[1] == uf) and axis_ok,
                                "delegates to np.%s.reduce(axis=%s)" % (c[1], ax), node=n.ast, engine="E6")
+            # a result derived from *another* reduction (any() as `add.reduce(...) != 0`, max as -min(-x), ...) is only right for
+            # some element types: signed values cancel in a sum, unsigned values wrap under negation
+            for x in walk(tm):
+                c = attr_chain(x.a[0]) if x.k == "call" else None
+                if c and len(c) == 3 and c[2] == "reduce" and c[1] != uf and not any(a is x for a in alts(tm)):
+                    ctx.violated("C05.c", m, what, "the result is derived from np.%s.reduce (%s): that is not the same function for every element type "
+                                 "(signed rows such as [3, -3] sum to 0 although they hold non-zero values)" % (c[1], tm), node=n.ast, key="derived:" + c[1], engine="KB")
         if not found:
             ctx.unknown("C05.c", m, what, "delegation not recognised", engine="E6")
         # the decorator allows both spellings of the row axis
